@@ -1,4 +1,4 @@
-(* regenerated on every run by harness/cmd/translate (dokill) from core/task/manager.go doKillTasks:
+(* regenerated on every run by harness/cmd/translate (dokill) from core/task (the kill routine of KillTasks / Cleanup):
    a task whose KILL call failed is put back into the roster; the loop then carries on with the other tasks *)
 Definition dokill_puts_back : bool := true.
 Definition dokill_carries_on : bool := true.
